@@ -8,11 +8,13 @@ package jobconfig
 //@ pure jobNameFor(jobConfigName string, unix Int) string = sprintf("%v-%v", jobConfigName, int64(unix))
 
 //@ func GenerateName
+//@   params jobConfigName, startTime
 //@   tags C02
 //@   modifies clock
 //@   ensures [C02] name-is-a-function-of-config-and-second: !startTime.IsZero() ==> result == jobNameFor(jobConfigName, startTime.Unix()) && clock == old(clock)
 
 //@ func makeLabels
+//@   params rjc
 //@   tags C02
 //@   requires rjc != nil
 //@   loop 1 invariant desiredLabels != nil && fresh(desiredLabels) && desiredLabels != template.Labels
@@ -28,6 +30,7 @@ package jobconfig
 //@   ensures [C02] fresh-map: result != nil && fresh(result)
 
 //@ func makeAnnotations
+//@   params rjc, jobType, createTime
 //@   tags C02
 //@   requires rjc != nil
 //@   loop 1 invariant desiredAnnotations != nil && fresh(desiredAnnotations) && desiredAnnotations != template.Annotations
@@ -44,6 +47,7 @@ package jobconfig
 //@   ensures [C02] fresh-map: result != nil && fresh(result)
 
 //@ func NewJobFromJobConfig
+//@   params jobConfig, jobType, createTime
 //@   tags C02
 //@   requires jobConfig != nil
 //@   modifies clock
@@ -69,6 +73,7 @@ package jobconfig
 //@ pure tsNs(t *metav1.Time) Int = t == nil ? ns(zero(time.Time)) : ns(t.Time)
 
 //@ func GetLabelScheduleTime
+//@   params rj
 //@   tags C15
 //@   requires rj != nil
 //@   fresh result
@@ -77,6 +82,7 @@ package jobconfig
 
 // the latest schedule time of the given Jobs (nil if there is none after the zero time)
 //@ func GetLastScheduleTime
+//@   params jobs
 //@   tags C15
 //@   requires forall i int :: 0 <= i && i < len(jobs) ==> jobs[i] != nil
 //@   loop 1 invariant -1 <= rangeindex && rangeindex < len(jobs)
@@ -88,6 +94,7 @@ package jobconfig
 
 // the latest start time of the given Jobs (nil if none has started)
 //@ func GetLastStartTime
+//@   params jobs
 //@   tags C15
 //@   requires forall i int :: 0 <= i && i < len(jobs) ==> jobs[i] != nil
 //@   loop 1 invariant -1 <= rangeindex && rangeindex < len(jobs)
@@ -102,10 +109,12 @@ package jobconfig
 //@     active > 0 ? execution.JobConfigExecuting : (queued > 0 ? execution.JobConfigJobQueued
 //@     : ((sched != nil && sched.Cron != nil) ? (sched.Disabled ? execution.JobConfigReadyDisabled : execution.JobConfigReadyEnabled) : execution.JobConfigReady))
 //@ func GetState
+//@   params rjc
 //@   requires rjc != nil
 //@   ensures [C15] result == stateFor(rjc.Status.Active, rjc.Status.Queued, rjc.Spec.Schedule)
 
 //@ func LabelJobsForJobConfig
+//@   params rjc
 //@   requires rjc != nil
 //@   fresh result
 //@   ensures [C15] result != nil && (LabelKeyJobConfigUID in result) && result[LabelKeyJobConfigUID] == string(rjc.UID)
